@@ -17,7 +17,7 @@ CHECKS = {
     "C01": dict(
         cat="model_checking", design="3/C01",
         technique="stateless model checking of the real library: exhaustive DFS over child-step schedules / blocked-call outcomes / fault answers under a controlled libc layer",
-        text="Every exit code 0..255 and every terminating signal, every API history up to depth 3 (quick) / 4 (thorough) over "
+        text="Every exit code 0..255 and every terminating signal (the helper lets core-dumping signals really dump, so their wait status carries the core bit), every API history up to depth 3 (quick) / 4 (thorough) over "
              "{wait 0/2/INF, terminate, kill, three stop sequences}, every point at which the child's end can be released relative to the "
              "library's poll/kill/waitpid/close calls (all alternatives at blocked calls, up to 2 scheduling deviations elsewhere) and, in the "
              "thorough tier, every single fault at poll/waitpid/kill (waitpid also answering ECHILD: somebody else reaped the child, after which no status may "
@@ -31,12 +31,13 @@ CHECKS = {
              "x every answer of every fault menu at every libc call reproc_start makes in the parent and in the forked child, one at a time (quick) and "
              "in pairs (thorough); 12 natural failures with the real exec (missing/non-executable/over-long program, bad working directory, unusable "
              "redirect path, oversized input, name not in PATH, a stream sent to its own descriptor number that the caller has closed), each also combined with every single fault. Oracle by outcome: either a negative result that "
-             "is the errno of a failing call, no child left, pid EINVAL, handle startable again - or success with positive ledger pid, the helper image "
+             "is the errno of a failing call, no child left, pid EINVAL, terminate/kill/wait refused without a system call, handle startable again (a deadline given to the "
+             "failed natural-failure start must not survive into a restart without one) - or success with positive ledger pid, the helper image "
              "really running, stream identities right and a write/read/wait round trip."),
     "C05": dict(
         cat="model_checking", design="3/C05",
         technique="stateless model checking of the real library: exhaustive single-fault (quick) / fault-pair (thorough) enumeration over every intercepted libc call on both sides of fork, under a controlled libc layer",
-        text="14 redirect/option scenarios x 8 API histories (destroy, wait, write/close/read-to-EOF, drain, terminate/wait/kill, kill/wait, run_ex, deadline passes then poll/drain/kill/wait) with "
+        text="14 redirect/option scenarios x 9 API histories (destroy, wait, write/close/read-to-EOF, drain, terminate/wait/kill, kill/wait, run_ex, deadline passes then poll/drain/kill/wait, drain into string sinks) with "
              "user-owned FILE/handles/std streams, x every fault (including close EINTR/EIO and every allocation) at every libc call of the whole history: "
              "descriptor ledger empty and /proc/self/fd equal to the initial table, heap ledger empty, no foreign/double close or free (recorded and not "
              "executed), user objects still open on the same inode, children reaped."),
@@ -46,7 +47,8 @@ CHECKS = {
         text="Every kill()/waitpid() the library issues is checked against the child ledger (positive pid returned by fork for this handle, not yet reaped); "
              "calls that fail the rule are recorded and never reach the kernel. Space: every single start fault continued with terminate/wait/kill/"
              "terminate/destroy and kill/wait (14 scenarios), and all histories up to depth 3/4 over wait/terminate/kill/stop with the child's end released "
-             "at every scheduling point (the C01 space), including stop sequences and terminate/kill after a successful wait."),
+             "at every scheduling point (the C01 space), including stop sequences and terminate/kill after a successful wait; after every failed start "
+             "terminate/kill/wait must be refused with no kill()/waitpid() at all (a handle that is not running names no process)."),
     "C12": dict(
         cat="model_checking", design="3/C12",
         technique="stateless model checking of the real library: exhaustive single-fault (quick) / fault-pair (thorough) enumeration over every intercepted libc call on both sides of fork, under a controlled libc layer",
@@ -57,7 +59,7 @@ CHECKS = {
         cat="model_checking", design="3/C07",
         technique="stateless model checking of the real library: exhaustive enumeration of stop triples x child behaviours x schedules/blocked-call outcomes under a virtual clock, clause-checking oracle over signals, result and virtual times",
         text="All stop triples over {noop, wait, terminate, kill, out-of-range} x timeouts {0, 2 ms, until-deadline, infinite} (quick: infinite only in the "
-             "last non-noop slot, 1730 triples; thorough: all 2744 distinguishable ones) x deadline {none, 3 ms} x child {exits by itself at any "
+             "last non-noop slot, all-noop requests with 5 timeout settings; thorough: all distinguishable ones, all-noop with all 64 timeout settings) x deadline {none, 3 ms} x child {exits by itself at any "
              "scheduling/blocked point, dies on SIGTERM, handler then dies when released, ignores SIGTERM} x state {running, exited-unreaped, reaped}. "
              "Oracle: signals are a prefix of the actions' signals in order, each sent exactly when the preceding waits have expired on the virtual "
              "clock and never after the child's exit; status iff reaped and exact; ETIMEDOUT iff every slot ran and no wait could have seen the exit; "
@@ -76,7 +78,7 @@ CHECKS = {
         cat="model_checking", design="3/C08",
         technique="stateless model checking of the real library under a virtual clock: exhaustive enumeration of source orders/deadlines/timeouts x blocked-call outcomes (every elapsed millisecond, timeout expiry, signal interruption) x clock-read deviations",
         text="reproc_wait: timeout {0,1,2,3,INFINITE,DEADLINE} x deadline {none,1,2,3,INT_MAX} x child {idle, exits at any point, two waits, fork mode, exited "
-             "before the call, call 4 ms late with the child exited / idle}. "
+             "before the call, call 4 ms late with the child exited / idle, idle on a handle whose first start with a 1 ms deadline failed}. "
              "reproc_poll: 1..2 (thorough 3) sources in every order, each {no process, no deadline, deadline 1/2/3 ms, already expired} x interests "
              "{EXIT, OUT, OUT|EXIT} x timeout {0,1,2,3,INFINITE} x children {idle, write, exit}, polled twice. Every alternative at every blocked OS "
              "poll (child event after each elapsed ms, expiry, EINTR after each elapsed ms) and clock jumps at clock reads, one deviation (quick) / two "
@@ -87,7 +89,7 @@ CHECKS = {
         cat="model_checking", design="3/C09",
         technique="stateless model checking of the real library: exhaustive enumeration of stream/child states x interest masks x schedules, with kernel truth probes after every poll",
         text="1 and 3 sources (one of them process-less) x all 16 interest masks x stdout {idle, data pending, closed by child, closed by parent, EOF "
-             "already reported, not a pipe} x stdin {idle, closed by child, closed by parent, pipe exactly full, full and then closed by the child} x stderr {pipe, parent} x child {running, zombie, reaped} x "
+             "already reported, not a pipe} x stdin {idle, closed by child, closed by parent, pipe exactly full, full and then closed by the child, closed by the library after start-up input} x stderr {pipe, parent} x child {running, zombie, reaped} x "
              "timeout {0, 2} x an expired deadline on the last source, with one remaining child step released at any scheduling/blocked point. After "
              "each return the harness polls the parent's own descriptors (matched to the child's by pipe inode): events == requested and ready, count == "
              "sources with events, EPIPE iff nothing requested is pollable, and every reported event is consumed (read / 1-byte write / wait(0)) without "
@@ -111,7 +113,7 @@ CHECKS = {
              "deadline {none, 1..3 ms} expiring before/between/after output, through reproc_drain and reproc_run_ex. Oracle: two initial (in, 0) calls, "
              "chunks equal the stream byte for byte, exactly one size-0 call per piped stream after its data, 0 iff both ended, first non-zero sink value "
              "returned with no later call, ETIMEDOUT only at the deadline and no call inside drain still blocked after it, string = previous content + bytes "
-             "(intact after ENOMEM), run_ex = exit status. The reproc++ templates reproc::drain / reproc::run with lambda sinks and sink::string are "
+             "(intact after ENOMEM), run_ex = exit status (also after a positive sink result, which only stops the draining). The reproc++ templates reproc::drain / reproc::run with lambda sinks and sink::string are "
              "instantiated in a C++ harness (h_c16_cxx) over the same interposed C objects and judged by the same protocol clauses."),
     "C17": dict(
         cat="model_checking", design="3/C17",
@@ -129,7 +131,7 @@ CHECKS = {
              "streams closed with fclose() (28); descriptors closed first so that the user's FILEs/handles themselves sit on 0-2 (868); thorough adds nonblocking. For each stream the helper's hello must show exactly the requested object "
              "with the right direction (pipe inode matched to a descriptor the parent holds in the opposite direction; the parent's own stream or "
              "the null device when it has none; same open file as fd 1 for STDOUT; the supplied handle/FILE; the path's inode opened read/write-only), "
-             "no FD_CLOEXEC left, and the API answers EPIPE exactly for non-pipe streams. A clean failure of a valid combination is a violation."),
+             "no FD_CLOEXEC left, the API answers EPIPE exactly for non-pipe streams, and the library never tries to close an object the caller lent it. A clean failure of a valid combination is a violation."),
     "C11": dict(
         cat="model_checking", design="3/C11",
         technique="exhaustive enumeration of parent descriptor pools x limits x redirect kinds against the real library and a real exec; the child lists every descriptor it was started with",
@@ -137,7 +139,7 @@ CHECKS = {
              "open+close-on-exec (243) x redirects {default, pipes, discard, user handles, user FILEs without close-on-exec}, plus the whole C10 space: "
              "the started program sees 0, 1, 2 and exactly one more descriptor, the write end of a pipe whose read end the parent holds and that is none "
              "of the streams; the caller's own descriptors are still open afterwards; two starts with the limit raised in between, the second also in fork mode "
-             "while the first child runs (the forked side lists its descriptors). Concurrent starts from threads are decided by the C20 harness."),
+             "while the first child runs, also with stderr taken from standard descriptor 1 (the forked side lists its descriptors). Concurrent starts from threads are decided by the C20 harness."),
     "C13": dict(
         cat="model_checking", design="3/C13 + Appendix A",
         technique="exhaustive enumeration of the option space against the real validation code with an independent reference of the documented rules; resource-creating libc calls are intercepted, counted and refused, valid combinations are spawned for real",
@@ -162,7 +164,7 @@ CHECKS = {
         cat="model_checking", design="3/C14 + Appendix E",
         technique="explicit-state breadth-first search over API histories of the real library (each transition replays the history in a fresh process), states deduplicated by a canonical digest, reference life-cycle model as oracle, ASan+UBSan build",
         text="Alphabet of 30 operations: start {echo child, exit-at-once child, invalid options, failing program with a deadline, echo child with start-up input of size 0}, pid, write, write(NULL,0), "
-             "read out/err/size 0/invalid stream/NULL buffer, close in/out/err/invalid, poll (mask 15, timeout 0) / poll(NULL) / zero sources, wait(0), "
+             "read out/err/size 0/invalid stream/NULL buffer, close in/out/err/invalid, poll (a stale process-less source first, then the handle with mask 15, timeout 0) / poll(NULL) / zero sources, wait(0), "
              "wait(DEADLINE), terminate, kill, stop{wait 0}, stop{kill INF}, destroy + fresh handle, every API with a NULL handle, and the environment "
              "operations 'child performs its next step' and 'time passes'. Histories of length 4 (quick) / 6 (thorough), every newly found state expanded "
              "with every operation. Oracle: ref_life (state NOT_STARTED -> RUNNING -> EXITED only; what each call must return in each state, using the "
@@ -189,7 +191,8 @@ CHECKS = {
              "bases chosen so that any swap of two fields shows, bool/enum pairs, start / fork / options::clone of each; argument containers "
              "(vector, list, array) and environment containers (vector of pairs, map) of 0..3 / 0..2 entries over a 9-string alphabet (empty, space, quote, "
              "backslash, '=', non-UTF-8); every wrapper method x {INT_MIN+1, -EINVAL, -EPIPE, -ETIMEDOUT, -ENOMEM, -EWOULDBLOCK, -1, 0, 1, 137, INT_MAX} with "
-             "argument pass-through; enumerator and constant equality; one destroy per new.",
+             "argument pass-through; enumerator and constant equality; one destroy per new; owned argument/environment arrays moved (element, options, vector of options) "
+             "with the source destroyed before start.",
         note="Trusted base: g++, the fake C layer and comparisons in /verif/cxx/h_c19.cpp. Integer fields are checked on boundary menus, not on all values."),
     "C20": dict(
         cat="model_checking", design="3/C20, 2.6",
